@@ -574,13 +574,11 @@ struct Ctx {
     scratch: PathBuf,
 }
 
+// ids and paths are relative names; every id is keyed as <scratch>/<name> so that add_content(id, ..)
+// and add_file(path) address the same slot when id == path
 fn idpath(ctx: &Ctx, op: &Value) -> (String, PathBuf) {
-    if let Some(p) = op["path"].as_str() {
-        (p.to_owned(), ctx.scratch.join(p))
-    } else {
-        let id = op["id"].as_str().unwrap_or("").to_owned();
-        (id.clone(), PathBuf::from(id))
-    }
+    let name = op["path"].as_str().or(op["id"].as_str()).unwrap_or("").to_owned();
+    (name.clone(), ctx.scratch.join(&name))
 }
 
 fn idname(scratch: &Path, p: &Path) -> String {
@@ -662,11 +660,44 @@ fn exec_op(ctx: &mut Ctx, op: &Value, ev: &mut Map<String, Value>) {
             }
             keys.sort();
             let mut digs = Map::new();
+            let mut sdigs = Map::new();
+            let mut kk = Vec::new();
             for (k, v) in obs.iter() {
                 digs.insert(k.clone(), Value::String(digest(v)));
+                // order-insensitive digest: the diagnostics as a sorted bag
+                let mut v2 = v.clone();
+                if let Some(ds) = v2["diags"].as_array_mut() {
+                    ds.sort_by_key(|d| serde_json::to_string(d).unwrap());
+                }
+                sdigs.insert(k.clone(), Value::String(digest(&v2)));
             }
+            // which key each file registers, and with which kind (read off the returned trees)
+            for (k, fr) in res.iter() {
+                if let Some(f) = &fr.ast {
+                    let kind = match f.item {
+                        ast::Item::Interface(_) => "interface",
+                        ast::Item::Parcelable(_) => "parcelable",
+                        ast::Item::Enum(_) => "enum",
+                    };
+                    kk.push(json!([idname(&scratch, k), f.get_key(), kind]));
+                }
+            }
+            kk.sort_by_key(|x| x.to_string());
+            // the import statements of each file as stored in its tree: [path, name]
+            let mut imps = Map::new();
+            for (k, fr) in res.iter() {
+                if let Some(f) = &fr.ast {
+                    let v: Vec<Value> = f.imports.iter().map(|i| json!([i.path, i.name])).collect();
+                    if !v.is_empty() {
+                        imps.insert(idname(&scratch, k), Value::Array(v));
+                    }
+                }
+            }
+            ev.insert("imps".into(), Value::Object(imps));
             ev.insert("keys".into(), json!(keys));
             ev.insert("dig".into(), Value::Object(digs));
+            ev.insert("sdig".into(), Value::Object(sdigs));
+            ev.insert("kk".into(), json!(kk));
             if detail == "full" {
                 ev.insert("obs".into(), Value::Array(obs.into_values().collect()));
             }
